@@ -16,7 +16,7 @@ WORD = re.compile(r'W[a-z][a-z]q')
 
 def cons(tier):
     ls = ['german', 'english', 'russian'] + (['french'] if tier != 'quick' else [])
-    c = [('F', l) for l in ls] + [('O', l) for l in ls] + [('S', l) for l in ls] + [('N', None), ('B', None)]
+    c = [('F', l) for l in ls] + [('O', l) for l in ls] + [('S', l) for l in ls] + [('N', None), ('B', None), ('H', None)]
     if tier != 'quick':
         c += [('P', 'german')]      # otherlanguage*
     return c
@@ -60,7 +60,7 @@ class Ctx:
         self.n += 1
         self.words[name] = (lang, flow, path)
         self.last = name
-        return name
+        return name + ('"a' if self.tail == 'SHORT' else '')    # probe: a babel shorthand glued to the word
 
 
 def render(seq, stack, ctx, flow, path, nw=1, nested=False):
@@ -76,7 +76,7 @@ def render(seq, stack, ctx, flow, path, nw=1, nested=False):
             inner = render(kids, st, ctx, flow, path + ((c, i),), ctx.inw if not kids else nw, nested=True)
             if ctx.tail == 'LEADWS':
                 inner = '\n    ' + inner
-            if ctx.tail and ctx.tail not in ('NOWORD', 'ADJ', 'ADJNL', 'LEADWS'):
+            if ctx.tail and ctx.tail not in ('NOWORD', 'ADJ', 'ADJNL', 'LEADWS', 'SHORT'):
                 inner += ' ' + ctx.tail
             if c == 'F':
                 out.append('\\foreignlanguage{%s}{%s}' % (l, inner))
@@ -98,6 +98,9 @@ def render(seq, stack, ctx, flow, path, nw=1, nested=False):
             out.append('\\footnote{%s}' % render(kids, [stack[-1]], ctx, ctx.nflow, path + (('N', i),), nw))
         elif c == 'B':
             out.append('\\textbf{%s}' % render(kids, stack, ctx, flow, path + (('B', i),), nw))
+        elif c == 'H':
+            # a heading: its argument is no group, a \selectlanguage in it stays in force (the heading is expanded on trial first)
+            out.append('\\section{%s}' % render(kids, stack, ctx, flow, path + (('H', i),), nw))
         if nested and ctx.tail == 'NOWORD' and i == len(seq) - 1:
             continue        # the inner construct closes together with the enclosing one
         if ctx.tail in ('ADJ', 'ADJNL') and i < len(seq) - 1 and c in 'FOP' and ctx.C[seq[i + 1][0]][0] in 'FOP':
@@ -117,11 +120,15 @@ def bad_shape(C, seq, stack, infoot, depth=0):
             if bad_shape(C, kids, stack + [LANGS[l]], infoot, depth):
                 return True
         elif c == 'S':
-            if infoot or depth:
+            if depth:
                 return True
             stack[-1] = LANGS[l]
         elif c == 'N':
-            if bad_shape(C, kids, [stack[-1]], True, depth):
+            # a footnote is a flow of its own: a switch inside it ends with it (TeX: the argument is a group)
+            if bad_shape(C, kids, [stack[-1]], True, 0):
+                return True
+        elif c == 'H':
+            if bad_shape(C, kids, stack, infoot, depth):
                 return True
         else:
             if bad_shape(C, kids, stack, infoot, depth + 1):
@@ -139,7 +146,7 @@ PREAMBLES = {
     'cls-en-pkg-de': ('\\documentclass[english]{article}\n\\usepackage[ngerman]{babel}\n', 'ru-RU', 'de-DE'),
     'cls-ru-pkg-none': ('\\documentclass[russian,a4paper]{scrartcl}\n\\usepackage[T1]{fontenc}\\usepackage{babel}\n', 'en-GB', 'ru-RU'),
 }
-TAILS = [None, '\\LaTeX', '\\xxx', 'NOWORD', 'ADJ', 'ADJNL', 'LEADWS', '\\footnotemark', '\\LaTeX ', '\\xxx\n']
+TAILS = [None, '\\LaTeX', '\\xxx', 'NOWORD', 'ADJ', 'ADJNL', 'LEADWS', '\\footnotemark', '\\LaTeX ', '\\xxx\n', 'SHORT']
 
 
 class C12:
@@ -150,7 +157,8 @@ class C12:
             'non-trivial = the tree contains at least one language construct that changes the language in force')
     assumptions = [
         'joining across nested or empty insertions is outside the model: the statement fixes labels there, the placeholder rule only for a flat insertion',
-        '\\selectlanguage inside a brace group, macro argument or detached flow is not generated (TeX would end its effect with the group, the statement is silent)',
+        '\\selectlanguage inside a brace group or the argument of a font macro is not generated (TeX would end its effect with the group, the statement is silent); '
+        'inside a footnote it acts up to the end of the footnote, inside a heading it stays in force',
     ]
 
     def bounds(self, tier):
@@ -170,7 +178,7 @@ class C12:
                     combos = [('opt-en', ths[1], 1, None), ('opt-de', ths[-1], 4, None)]
                 elif n == nmax - 1:
                     combos = [(p, t, inw, None) for p in ('opt-en', 'opt-de') for t in ths for inw in (1, 4)]
-                    combos += [('opt-en', 2, 1, tl) for tl in TAILS[1:]]
+                    combos += [('opt-en', 2, 1, tl) for tl in TAILS[1:]] + [('opt-de', 2, 1, 'SHORT'), ('opt-ru', 0, 1, 'SHORT')]
                 else:
                     combos = [(p, t, inw, tl) for p in PREAMBLES for t in ths for inw in (1, 4) for tl in TAILS]
                 for p, t, inw, tl in combos:
@@ -213,6 +221,15 @@ class C12:
             if len(found[w]) != 1:
                 viol.append({'clause': 'every word occurs in exactly one part', 'sig': 'C12:duplicated:' + kinds, 'detail': dict(det, word=w, parts_of_word=found[w])})
                 break
+            if tail == 'SHORT':
+                plang, ppi = found[w][0]
+                ptxt = ml[plang][ppi][0]
+                k = ptxt.index(w) + 4
+                probe = ptxt[k:k + 2]
+                if probe[:1] != ('\u00e4' if plang == 'de-DE' else '"') and found[w][0][0] == lang:
+                    viol.append({'clause': 'the text of a part is expanded with the settings of the language it is labelled with (babel shorthand "a behind each word)',
+                                 'sig': 'C12:shorthand:' + kinds, 'detail': dict(det, word=w, part_language=plang, probe=probe)})
+                    break
             if found[w][0][0] != lang:
                 why = 'preamble:' + pre if not path and lang == main and pre not in ('opt-en', 'opt-de', 'opt-ru') and not self.has_select(C, seq) else kinds + (':tail' if tail else '')
                 viol.append({'clause': 'the part is labelled with the language in force at the word',
